@@ -205,7 +205,7 @@ def run(ctx):
                [HK, T + "Terminal::get_next_command", READ], stop=env_side, floor=20, only=(lambda st: st.fn.name not in set(env_side) and not any(st.fn.name.startswith(e_ + "::") for e_ in env_side)),
                conditional=[(lambda st: st.fn.name.startswith(T) and io_result(st), "A7",
                              "assumption A7: the terminal (stderr) and the history file accept output; a failed write is an environment fault, not a key sequence"),
-                            (lambda st: st.fn.name == T + "Terminal::read_line" and st.kind.startswith("panic:") and "non-empty" in st.desc, "C20.R10",
+                            (lambda st: st.fn.name.startswith(T + "Terminal::read_line") and st.kind.startswith("panic:") and "non-empty" in st.desc, "C20.R10",
                              "a finished raw read leaves a non-blank buffer: blank drafts are refused and no blank line is ever in the history (C20.R10)")])
 
     # ------------------------------------------------------------------ R4
@@ -243,7 +243,8 @@ def run(ctx):
         ctx.violation("update_next-partial", un.file_line(), "update_next can return with a history line still focused without having copied it into the draft and moved the "
                       "focus back: the following edit changes the hidden draft while the history line stays on screen, and the cursor leaves the shown line")
     gn = ctx.fn(T + "Terminal::get_next_command")
-    finds = [b for b, t, c in gn.calls() if c and c.endswith("str>::find")]
+    # the cut is where the first ';' is: str::find(';'), or split_once(';'), which cuts there itself
+    finds = [b for b, t, c in gn.calls() if c and re.search(r"str>::(find|split_once)$", c)]
     ctx.instance(1)
     ok = len(finds) == 1 and gn.term(finds[0])["args"][1].get("int") == ord(";")
     ctx.oblig(ok, {"splitter": "find(';')"}, "call argument")
